@@ -194,7 +194,7 @@ def register(M):
         Pm = ex.truth(ex.call(P, [m], {}, st, node), st)
         Pw = ex.truth(ex.call(P, [w], {}, st, node), st)
         km, kw_ = ex.call(key, [m], {}, st, node), ex.call(key, [w], {}, st, node)
-        ex.use('L-MIN:non-empty finite set has a minimal element (Lean: Lemmas.finite_min)')
+        ex.use('L-MIN:non-empty finite set has a minimal element [Lean: Lemmas.finite_min]')
         return IMPLIES(exists([x], Px), exists([m], AND(Pm, forall([w], IMPLIES(Pw, Z(km) <= Z(kw_))))))
     B['least_exists'] = b_least_exists
 
@@ -266,7 +266,7 @@ def register(M):
         # unfolding (theorems of the least fixed point)
         st.assume(forall([i, j], IMPLIES(R(tok, i, j), OR(i == j, exists([k], AND(nd(k), step(i, k), R(tok, k, j)))))))
         st.assume(forall([i, j], IMPLIES(R(tok, i, j), OR(i == j, exists([k], AND(nd(k), R(tok, i, k), step(k, j)))))))
-        ex.use('DEF:reach / ucomp are the reflexive-transitive closures of the directed / undirected edge relation (closure and unfolding laws)')
+        ex.use('DEF:reach / ucomp are the reflexive-transitive closures of the directed / undirected edge relation (closure and unfolding laws [Lean: Lemmas.rtc_*])')
 
     def b_reach(args, kw, st, node):
         a = M.as_arr(st, args[0])
@@ -300,7 +300,7 @@ def register(M):
             step = lambda x, y: AND(NOT(EQ(a.get(x, y), 0)), EQ(a.get(y, x), 0))
             R = lambda x, y: b_reach([args[1], x, y], {}, st, node)
         closed = forall([u, v], IMPLIES(AND(in_range(u, 0, n), in_range(v, 0, n), inV(u), step(u, v)), inV(v)))
-        ex.use('L-LFP:induction principle of the reflexive-transitive closure (a closed set containing i contains everything related to i)')
+        ex.use('L-LFP:induction principle of the reflexive-transitive closure [Lean: Lemmas.rtc_closed_superset]')
         return IMPLIES(AND(inV(i0), closed), forall([v], IMPLIES(R(i0, v), inV(v))))
     B['closed_superset'] = b_closed_superset
 
